@@ -8,6 +8,7 @@ import c04
 
 CONFIGS = ['prod']
 EXPLANATION = (
+    'E8: the reader and the writer of the text form consult nothing but their input (no clock, environment or shared state reachable from from_str / fmt). '
     'E7: every constructor of the timestamp module that packs a caller-supplied Duration passes, before the packer, the admitting edge of a comparison of the whole seconds with a constant whose largest admitted value is exactly 2^32 - 1 (or a checked narrowing to u32). '
     'SEM (primary): HLCTimestamp::new interpreted with symbolic field bits gives the word layout (tiling, significance order), every accessor hands back ex'
     'actly its field bits, identities, the fraction round-trips at the division constant; E3 writer and reader by interpretation (printed value -> field bits; piece -> radix -> type -> field). St'
@@ -504,6 +505,7 @@ def check(ctx):
     check_E3(ctx, facts)
     check_E4(ctx, facts)
     check_constructor_range(ctx, facts)
+    check_text_pure(ctx, facts)
     # E6: the text form is a column format only — it does not order like the timestamps it denotes, so no SQL statement may compare it
     import c17
     c17.check_B8(ctx, facts, rule='C10.E6', only_compare=True)
@@ -581,3 +583,28 @@ def check_constructor_range(ctx, facts, rule='C10.E7'):
         ctx.ob(rule, 'constructor-range|%s' % body.name.rsplit('::', 1)[-1], good, site(body, packs[0][1]['cs']),
                'seconds above 2^32 - 1 are refused before the packer is reached' if good else why)
     return found
+
+
+def check_text_pure(ctx, facts, rule='C10.E8'):
+    """E8: the text form reads back the same for every reader at every time — parsing and printing a timestamp consult nothing but the
+    text / the word: no clock read (SystemTime / Instant), no environment, no shared state is reachable from `from_str` or `fmt`.  A
+    parser that refuses stamps "too far ahead of the local clock" (round 6, C17f) makes a stored row unreadable on a node whose clock is
+    behind, or after the clock was set back: the SQLite backend then fails reads the reference model serves."""
+    cg = CallGraph(facts)
+    IMPURE = ('std::time::SystemTime::now', 'std::time::Instant::now', 'std::time::SystemTime::elapsed', 'std::env::', 'std::fs::', 'std::thread::',
+              'std::sync::', 'core::sync::atomic::', 'std::process::', 'rand::', 'tokio::time::')
+    for label, name in (('reader', '<datacake_crdt::timestamp::HLCTimestamp as core::str::traits::FromStr>::from_str'),
+                        ('writer', '<datacake_crdt::timestamp::HLCTimestamp as core::fmt::Display>::fmt')):
+        root = facts.body(name)
+        if root is None:
+            continue
+        hits = []
+        for rb in cg.reach([root], bound=6):
+            for _b, t in rb.calls():
+                n_ = cname(t) or ''
+                if any(n_ == i or (i.endswith('::') and n_.startswith(i)) for i in IMPURE):
+                    hits.append((rb, t, n_))
+        ctx.ob(rule, 'text-form-pure|' + label, not hits, site(hits[0][0], hits[0][1]['cs']) if hits else site(root),
+               'the %s of the text form consults nothing but its input' % label if not hits else
+               'the %s of the text form reaches %s (in %s): whether a stored timestamp reads back depends on when and where it is read — a row the writer stored can be '
+               'refused by the reader' % (label, hits[0][2], last_seg(hits[0][0].name)))
